@@ -3,7 +3,7 @@ every fault sequence.
 
 The real ``dns.resolver.Resolver.resolve`` and ``dns.asyncresolver.Resolver.resolve``
 (with the real ``_Resolution``, ``_compute_timeout``, ``_get_qnames_to_try``,
-``Answer``/``resolve_chaining``, ``Cache``/``LRUCache`` and the real
+``Answer``/``resolve_chaining``, ``Cache``/``LRUCache`` (keys incl. the class: IN/CH/HS scenarios) and the real
 ``dns.nameserver.Do53Nameserver`` / ``DoHNameserver`` objects) are run against scripted
 transports and a controllable clock.  Only the I/O leaves are replaced
 (``dns.query.udp/tcp/https`` and their ``dns.asyncquery`` twins, and the name ``time``
@@ -57,6 +57,20 @@ BOUNDS = (
     "(exhaustive, 1728); resolve_chaining on chain lengths 0-18 x {answer, no-data, NXDOMAIN, "
     "NXDOMAIN+answer} x 5 TTL patterns x 3 answer/SOA TTL sets, shuffled answer sections, CNAME loops, QR "
     "clear, CNAME qtype; _compute_timeout on a boundary grid (elapsed = lifetime -/+ 0.125, = lifetime).  "
+    "Class scenarios (clause C16.cache_class, also counted under the general clauses): one resolver with a "
+    "cache asks the same name and type in classes IN/CH(/HS) interleaved (step patterns CH-IN-CH-IN, "
+    "IN-CH-IN-CH, CH-CH-IN-IN, CH-IN-(100 s)-CH-IN where only the CH entry has expired, IN-HS-CH-HS-CH-IN; "
+    "thorough also IN-IN-CH-CH and CH-HS-IN-(100 s)-CH-HS-IN; class passed as enum or as text) against scripted "
+    "servers that are authoritative per (class, name) with class-specific rdata and TTLs: exhaustive over "
+    "{answer, answer behind 2 CNAMEs, no-data, NXDOMAIN}^classes for a one-candidate name and over 6 (3 for three "
+    "classes) per-class profiles of a 3-candidate search list, x Cache/LRUCache x raise_on_no_answer x "
+    "TXT/MX x 1-2 servers (1068 scenarios quick, 1768 thorough).  An independent reference cache keyed (queried name, "
+    "type or ANY for NXDOMAIN, queried class) decides which queries must reach a server (a repeat is served "
+    "from the cache, another class is not) and the outcome; compared: the query trace with classes, the "
+    "result incl. Answer.rdclass and rrset class, cache.get() over names x types x {IN,CH,HS}, the expirations, "
+    "and the raw key set of cache.data (the raw key set is now also compared in every cached case of the "
+    "other parts).  Seeded: 150 (quick; thorough until 565 s, <= 6000) random cached settings whose 3-6 "
+    "resolutions use random classes with random fault scripts, evaluated by the general model.  "
     "Every case is run on both twins and compared event by event.  rotate is off, clock steps are "
     "non-negative, TSIG/EDNS off, the trio twin is not run (asyncio only), the back-off amounts are not "
     "asserted (only that sleeps happen between rounds and identically in both twins).  'Never asked again' "
@@ -1196,6 +1210,287 @@ def _rand_outcome(rng):
     return o
 
 
+
+# --------------------------------------------------------------------------------------
+# class scenarios: IN / CH / HS queries for the same name and type interleaved on one cache
+# --------------------------------------------------------------------------------------
+
+CLS_TEXT = {1: "IN", 3: "CH", 4: "HS"}
+# per class: its own rdata and its own TTLs, so that an answer served across classes shows in the
+# outcome and entries of different classes expire at different times
+CLS_PARAMS = {
+    1: {"ttl": 300, "soa": [600, 300, 1], "TXT": '"in"', "MX": "10 in.test."},
+    3: {"ttl": 30, "soa": [60, 30, 1], "TXT": '"ch"', "MX": "10 ch.test."},
+    4: {"ttl": 100, "soa": [100, 200, 1], "TXT": '"hs"', "MX": "10 hs.test."},
+}
+CLS_CHAIN = [500, 500]
+
+
+def _class_outcome(cls, letter, rdtype):
+    """Outcome served by the scripted zone for class *cls*: A answer, C answer behind two CNAMEs,
+    N no-data, X NXDOMAIN."""
+    p = CLS_PARAMS[cls]
+    if letter == "A":
+        return {"k": "A", "chain": [], "ttl": p["ttl"], "rdata": p[rdtype]}
+    if letter == "C":
+        return {"k": "A", "chain": list(CLS_CHAIN), "ttl": p["ttl"], "rdata": p[rdtype]}
+    if letter == "N":
+        return {"k": "N", "soa": list(p["soa"])}
+    if letter == "X":
+        return {"k": "X", "soa": list(p["soa"])}
+    raise AssertionError(letter)
+
+
+def _class_oracle(cfg, runs):
+    """Independent oracle for the class scenarios (cfg['zone'] set, every reply is terminal: answer,
+    no-data or NXDOMAIN, every exchange takes 0.25 s).  A reference cache keyed by (queried name,
+    type or ANY for NXDOMAIN, queried class) decides for every step which queries must reach a server
+    and what the outcome is; the real query trace, the result and the cache keys (through get() on
+    the key grid and as the raw key set) are compared with it.
+    Returns a list of (clause, what, sig)."""
+    CL = "C16.cache_class"
+    zone = {(int(c), n): o for c, n, o in cfg["zone"]}
+    T = cfg["rdtype"]
+    s0 = cfg["servers"][0]
+    addr = s0["addr"]
+    port = s0["port"] if s0["kind"] != "doh" else 443
+    M = {}
+    for i, run in enumerate(runs):
+        rs = cfg["resolutions"][i]
+        cls = rs["rdclass"]
+        cands = _oracle_qnames(cfg, rs["qname"])
+        now = run["start"]
+        exp_q = []
+        why = []  # per expected query / per skipped candidate: the decision of the reference cache
+        expected = None
+        for c in cands:
+            e = M.get((c, T, cls))
+            if e is not None and e["exp"] > now:
+                why.append((c, "cached", e["kind"]))
+                if e["kind"] == "nodata" and cfg["raise_on_no_answer"]:
+                    expected = ["NoAnswer"]
+                else:
+                    expected = e["desc"]
+                break
+            e = M.get((c, "ANY", cls))
+            if e is not None and e["exp"] > now:
+                why.append((c, "cached", "nx"))
+                continue
+            exp_q.append((c, T, cls))
+            why.append((c, "ask", None))
+            now += 0.25
+            o = zone[(cls, c)]
+            if o["k"] == "A":
+                chain = o.get("chain", [])
+                canon = c if not chain else _chain_name(len(chain) - 1)
+                minttl = min([o["ttl"]] + list(chain))
+                desc = ["answer", c, canon, [canon, o["ttl"], T, [o["rdata"]]], round(now + minttl, 6), addr, port,
+                        T, cls, cls]
+                M[(c, T, cls)] = {"kind": "ans", "exp": now + minttl, "desc": desc}
+                expected = desc
+                break
+            minttl = min(o["soa"][0], o["soa"][1])
+            if o["k"] == "N":
+                desc = ["answer", c, c, None, round(now + minttl, 6), addr, port, T, cls, None]
+                M[(c, T, cls)] = {"kind": "nodata", "exp": now + minttl, "desc": desc}
+                expected = ["NoAnswer"] if cfg["raise_on_no_answer"] else desc
+                break
+            M[(c, "ANY", cls)] = {"kind": "nx", "exp": now + minttl, "desc": None}
+        if expected is None:
+            expected = ["NXDOMAIN", list(cands), sorted(cands)]
+        # ---- the query trace
+        got_q = [(e["qname"], e["rdtype"], e["rdclass"]) for e in run["events"] if e["t"] == "q"]
+        if got_q != exp_q:
+            j = next((j for j, (x, y) in enumerate(zip(got_q, exp_q)) if x != y), min(len(got_q), len(exp_q)))
+            g = got_q[j] if j < len(got_q) else None
+            x = exp_q[j] if j < len(exp_q) else None
+            ctx = (f"step {i} ({rs['qname']} {T} {CLS_TEXT[cls]}): queries sent {got_q}, the reference cache"
+                   f" (keys {sorted(k for k, e in M.items())}) requires {exp_q}")
+            if g is not None and x is not None and g[0] == x[0] and g[1] == x[1] and g[2] != x[2]:
+                return [(CL, "query sent in another class than requested; " + ctx,
+                         {"prop": "C16", "what": "query sent in a class other than the requested one"})]
+            # which candidate did the real resolver treat differently?
+            asked_real = {q[0] for q in got_q}
+            asked_exp = {q[0] for q in exp_q}
+            for c in cands:
+                if c in asked_exp and c not in asked_real:
+                    others = sorted(
+                        e["kind"] for (n, ty, k), e in M.items()
+                        if n == c and k != cls and ty in (T, "ANY") and e["exp"] > run["start"]
+                    )
+                    if others:
+                        return [(CL, f"{c} was not asked in class {CLS_TEXT[cls]}: served from an entry cached for"
+                                     f" another class; " + ctx,
+                                 {"prop": "C16", "what": "query answered from an entry cached for another class",
+                                  "kind": others[0]})]
+                    return [(CL, f"{c} was not asked although nothing is cached for it; " + ctx,
+                             {"prop": "C16", "what": "query not sent although nothing is cached under its key"})]
+                if c in asked_real and c not in asked_exp:
+                    kind = next((w[2] for w in why if w[0] == c and w[1] == "cached"), None)
+                    if kind is not None:
+                        return [(CL, f"{c} was asked again although it is cached for class {CLS_TEXT[cls]}; " + ctx,
+                                 {"prop": "C16", "what": "repeat query not served from the cache", "kind": kind})]
+                    break
+            return [(CL, "query trace differs; " + ctx, {"prop": "C16", "what": "class scenario query trace differs"})]
+        # ---- the result
+        got = run["result"]
+        same = expected[0] == got[0]
+        diff = None
+        if not same:
+            diff = f"{expected[0]}->{got[0]}"
+        elif expected[0] == "answer":
+            names = {1: "qname", 2: "canonical_name", 3: "rrset", 5: "nameserver", 6: "port", 7: "rdtype",
+                     8: "rdclass", 9: "rrset.rdclass"}
+            for ix in (8, 9, 3, 1, 2, 5, 6, 7):
+                if expected[ix] != got[ix]:
+                    diff = "answer." + names[ix]
+                    break
+            if diff is None and abs(expected[4] - got[4]) > 1e-5:
+                diff = "answer.expiration(min ttl)"
+        elif expected[0] == "NXDOMAIN":
+            if expected[1] != got[1] or expected[2] != got[2]:
+                diff = "NXDOMAIN.qnames/responses"
+        if diff is not None:
+            return [(CL, f"step {i} ({rs['qname']} {T} {CLS_TEXT[cls]}): the server data for this class gives"
+                         f" {expected}, real result {got}",
+                     {"prop": "C16", "what": "outcome differs from the data of the queried class", "diff": diff})]
+        # ---- the cache keys, through get() on the grid names x {T, ANY, TXT, A} x {IN, CH, HS}
+        exp_p = {}
+        for (n, ty, k), e in M.items():
+            if e["exp"] > now and n in run["probed"]:
+                exp_p[f"{n}|{ty}|{k}"] = e["kind"]
+        got_p = {k: v[0] for k, v in run["cache"].items()}
+        if exp_p != got_p:
+            missing = sorted(set(exp_p) - set(got_p))
+            extra = sorted(set(got_p) - set(exp_p))
+            moved = [m for m in missing if any(x.rsplit("|", 1)[0] == m.rsplit("|", 1)[0] for x in extra)]
+            if moved:
+                what = "entry stored under a class other than the queried one"
+                kinds = sorted({exp_p[m] for m in moved})
+            elif missing:
+                what = "entry missing under (queried name, type|ANY, queried class)"
+                kinds = sorted({exp_p[m] for m in missing})
+            elif extra:
+                what = "entry under a key that was not queried"
+                kinds = sorted({got_p[x] for x in extra})
+            else:
+                what = "entry of the wrong kind"
+                kinds = sorted({got_p[x] for x in got_p if got_p[x] != exp_p.get(x)})
+            return [(CL, f"step {i} ({rs['qname']} {T} {CLS_TEXT[cls]}): cache.get() finds {got_p}, documented"
+                         f" keys hold {exp_p}",
+                     {"prop": "C16", "what": what, "kinds": ",".join(kinds)})]
+        for (n, ty, k), e in M.items():
+            key = f"{n}|{ty}|{k}"
+            if key in run["cache"] and abs(run["cache"][key][1] - e["exp"]) > 1e-5:
+                return [(CL, f"step {i}: entry {key} expires at {run['cache'][key][1]}, the data of class"
+                             f" {CLS_TEXT[k]} gives {e['exp']}",
+                         {"prop": "C16", "what": "cached expiration is not that of the queried class", "kind": e["kind"]})]
+        # ---- the raw key set
+        if run.get("keys") is not None:
+            raw = {tuple(k) for k in run["keys"]}
+            ever = set(M.keys())
+            valid = {k for k, e in M.items() if e["exp"] > now}
+            if (raw - ever) or (valid - raw):
+                return [(CL, f"step {i} ({rs['qname']} {T} {CLS_TEXT[cls]}): raw cache keys {sorted(raw)}, documented:"
+                             f" valid {sorted(valid)}, ever stored {sorted(ever)}",
+                         {"prop": "C16", "what": "raw cache key " + ("extra" if raw - ever else "missing")})]
+    return []
+
+
+CLASS_PATTERNS = {
+    # name: [(class, gap before the step, class passed as text)]
+    "CICI": [(3, 0.0, False), (1, 1.0, False), (3, 1.0, False), (1, 1.0, False)],
+    "ICIC": [(1, 0.0, True), (3, 1.0, True), (1, 1.0, True), (3, 1.0, True)],
+    "CCII": [(3, 0.0, False), (3, 1.0, True), (1, 1.0, False), (1, 1.0, True)],
+    # the CH entry (30 s) has expired at the third step, the IN entry (300 s) has not
+    "CI~CI": [(3, 0.0, False), (1, 1.0, False), (3, 100.0, False), (1, 1.0, False)],
+    "IHCHCI": [(1, 0.0, False), (4, 1.0, False), (3, 1.0, True), (4, 1.0, False), (3, 1.0, False), (1, 1.0, False)],
+}
+CLASS_PATTERNS_THOROUGH = {
+    "IICC": [(1, 0.0, False), (1, 1.0, False), (3, 1.0, False), (3, 1.0, False)],
+    # after 100 s the CH (30 s) and HS (100 s) entries have expired, the IN (300 s) one has not
+    "CHI~CHI": [(3, 0.0, False), (4, 1.0, False), (1, 1.0, False), (3, 100.0, False), (4, 1.0, False), (1, 1.0, True)],
+}
+ALL_CLASS_PATTERNS = dict(CLASS_PATTERNS, **CLASS_PATTERNS_THOROUGH)
+CLASS_LETTERS_1 = ["A", "C", "N", "X"]  # one candidate name
+CLASS_PROFILES_3 = ["XXX", "XAX", "XXN", "AXX", "XNA", "XXC"]  # three candidate names (search list)
+
+
+def _class_settings():
+    out = []
+    for cache in ("cache", "lru"):
+        for raise_na in (True, False):
+            for search2 in (False, True):
+                rdtype = "MX" if (cache == "lru" and search2) else "TXT"
+                nserv, variant = (2, 1) if search2 else ((1, 0) if cache == "cache" else (2, 2))
+                out.append((cache, raise_na, search2, rdtype, nserv, variant))
+    return out
+
+
+def _class_cfg(setting, pattern, profile_by_class):
+    cache, raise_na, search2, rdtype, nserv, variant = setting
+    cfg = _base_cfg(nserv, search2, 1, False, False, raise_na, cache, variant, False, 1)
+    cfg["rdtype"] = rdtype
+    qname = cfg["resolutions"][0]["qname"]
+    cfg["resolutions"] = [
+        {"qname": qname, "gap": gap, "rdclass": cls, "as_text": as_text}
+        for cls, gap, as_text in ALL_CLASS_PATTERNS[pattern]
+    ]
+    cands = _oracle_qnames(cfg, qname)
+    zone = []
+    for cls, prof in sorted(profile_by_class.items()):
+        for c, letter in zip(cands, prof):
+            zone.append([cls, c, _class_outcome(cls, letter, rdtype)])
+    cfg["zone"] = zone
+    return cfg
+
+
+def _class_cases(quick):
+    """Yield (tag, cfg) for the exhaustive class scenarios."""
+    import itertools
+
+    for si, setting in enumerate(_class_settings()):
+        search2 = setting[2]
+        for pname, steps in (CLASS_PATTERNS if quick else ALL_CLASS_PATTERNS).items():
+            classes = sorted({st[0] for st in steps})
+            if not search2:
+                profs = [(x,) for x in CLASS_LETTERS_1]
+            elif len(classes) == 2:
+                profs = CLASS_PROFILES_3
+            else:
+                profs = CLASS_PROFILES_3[:3]
+            for combo in itertools.product(profs, repeat=len(classes)):
+                if quick and len(classes) == 3 and not search2 and (sum(map(hash_letter, combo)) + si) % 2:
+                    continue
+                by_class = {cls: "".join(p) for cls, p in zip(classes, combo)}
+                tag = (si, pname, tuple(sorted(by_class.items())))
+                yield tag, _class_cfg(setting, pname, by_class)
+
+
+def hash_letter(p):
+    return sum(ord(ch) for ch in "".join(p))
+
+
+def _rand_class_cfg(rng):
+    """Seeded: a random cached setting whose resolutions ask the same name in random classes; the
+    outcomes come from a random sequential script (faults included), evaluated by the general model."""
+    cfg = _rand_cfg(rng)
+    cfg["cache"] = rng.choice(["cache", "lru"])
+    cfg["rdtype"] = rng.choice(["TXT", "TXT", "MX", "CNAME"])
+    qname = cfg["resolutions"][0]["qname"]
+    steps = []
+    for j in range(rng.randint(3, 6)):
+        steps.append(
+            {
+                "qname": qname if rng.random() < 0.85 else rng.choice(["www.corp.test.", "www."]),
+                "gap": 0.0 if j == 0 else rng.choice([0.0, 1.0, 1.0, 20.0, 61.0, 500.0]),
+                "rdclass": rng.choice([1, 1, 3, 3, 4]),
+                "as_text": rng.random() < 0.3,
+            }
+        )
+    cfg["resolutions"] = steps
+    return cfg
+
 # --------------------------------------------------------------------------------------
 # direct clauses
 # --------------------------------------------------------------------------------------
@@ -1421,6 +1716,28 @@ def run(R):
                         R.violation("C16.lifetime", p[0], sig=p[1],
                                     replay={"kind": "budget", "args": list(args), "clause": "C16.lifetime"})
 
+    # ---- class scenarios: IN / CH / HS interleaved on one cache (exhaustive over the scenario grid)
+    GENERAL = ("C16.trace", "C16.outcome", "C16.sync_async", "C16.broken_never_again", "C16.tcp_retry",
+               "C16.lifetime", "C16.candidates")
+    nclass = 0
+    for tag, cfg in _class_cases(R.quick):
+        if R.deadline():
+            break
+        res = R.guard("C16.cache_class", _eval_case, cfg, [])
+        if res is None:
+            continue
+        problems, info = res
+        nclass += 1
+        key = ("class", tag)
+        R.case("C16.cache_class", key=key, nontrivial=info["nq"] > 0)
+        R.case("C16.cache", key=key, nontrivial=info["nq"] > 0)
+        for cl in GENERAL:
+            R.case(cl, key=key, nontrivial=info["nq"] > 0)
+        if nclass % 263 == 1:
+            R.sample("C16.cache_class", {"setting": tag[0], "steps": tag[1],
+                                         "zone": [[CLS_TEXT[c], p] for c, p in tag[2]], "results": info["results"]})
+        report(problems, cfg, [])
+
     # ---- exhaustive prefix trees
     ncases = 0
     if R.quick:
@@ -1464,7 +1781,23 @@ def run(R):
         if nseed % 211 == 1:
             R.sample("C16.outcome", {"seeded": nseed, "script": [o["k"] for o in script], "results": info["results"]})
         report(problems, cfg, script)
-    R.note(f"tree cases {ncases}, seeded cases {nseed}")
+    # ---- seeded class scenarios with fault scripts (drawn after the cases above, so those keep their draws)
+    nseedc = 0
+    targetc = 150 if R.quick else 6000
+    limitc = 43.0 if R.quick else 565.0
+    while nseedc < targetc and R.elapsed() < limitc and not R.deadline():
+        cfg = _rand_class_cfg(R.rng)
+        script = [_rand_outcome(R.rng) for _ in range(R.rng.randint(1, 14))]
+        res = R.guard("C16.cache", _eval_case, cfg, script)
+        if res is None:
+            continue
+        problems, info = res
+        nseedc += 1
+        key = ("seeded-class", nseedc)
+        for cl in GENERAL + ("C16.cache",):
+            R.case(cl, key=key, nontrivial=info["nq"] > 0)
+        report(problems, cfg, script)
+    R.note(f"class scenarios {nclass}, tree cases {ncases}, seeded cases {nseed}, seeded class cases {nseedc}")
 
 
 def replay(data):
